@@ -11,19 +11,24 @@ SETUP = (
     "/venv/bin/pip install --no-index --find-links /opt/veriftools/wheels hypothesis"
 )
 
-# id -> (technique, level text, level note, design ref)
-CHECKS = {
-    "C05": (
-        "property-based testing: Hypothesis-generated VDI image specs -> independent struct writer + content model; "
-        "differential read oracle",
-        "Generated-input exploration: thousands of VDI images (block size, map, physical permutation, offsets) x requests "
-        "per run, each read compared byte-for-byte with a reference model built from the spec alone. Finds layout-dependent "
-        "read errors the fixed samples cannot; does not prove absence.",
-        "Trusted: the independent VDI writer (from VDICore.h) and the extent-map model in hv/sparse.py; dissect.util's "
-        "AlignedStream is exercised, not modelled.",
-        "DESIGN.md §3 C05",
-    ),
-}
+import importlib
+
+DEFAULT_TECH = "property-based testing (Hypothesis) over an independent builder + reference model oracle"
+
+
+def check_texts(pid):
+    mod = importlib.import_module(f"hv.props.{pid.lower()}")
+    tech = getattr(mod, "TECHNIQUE", DEFAULT_TECH)
+    text = getattr(mod, "LEVEL_TEXT", None) or (
+        "Generated-input exploration against an explicit oracle: " + getattr(mod, "RULE", "")
+        + " Finds input-dependent violations the fixed samples cannot reach; does not prove absence."
+    )
+    note = getattr(mod, "LEVEL_NOTE", None) or (
+        "Trusted: the independent builders/serialisers and reference models under /verif/hv (written from the format "
+        "specifications, never importing the repo's layouts). " + " ".join(getattr(mod, "ASSUMPTIONS", []))
+    )
+    return tech, text, note, f"DESIGN.md section 3 {pid}"
+
 
 NOT_YET = "check not built yet in this round (work in progress; see DESIGN.md)"
 
@@ -37,8 +42,8 @@ def main():
     checks = []
     na = []
     for pid in props:
-        if pid in CHECKS and os.path.exists(os.path.join(VERIF_DIR, "hv", "props", pid.lower() + ".py")):
-            tech, text, note, ref = CHECKS[pid]
+        if os.path.exists(os.path.join(VERIF_DIR, "hv", "props", pid.lower() + ".py")):
+            tech, text, note, ref = check_texts(pid)
             checks.append({
                 "property_id": pid,
                 "quick_cmd": f"./check {pid} --tier quick",
